@@ -90,13 +90,58 @@ func (f *Frame) callStatic(b *ssa.BasicBlock, in *ssa.Call, callee *ssa.Function
 	full := callee.String()
 	if callee.Synthetic != "" && callee.Blocks != nil && (strings.HasPrefix(callee.Synthetic, "wrapper") || strings.HasPrefix(callee.Synthetic, "bound") || strings.HasPrefix(callee.Synthetic, "thunk")) {
 		// wrappers: inline directly
-		return f.inlineCall(callee, args, binds, st, g, b)
+		if f.depth < inlineDepthLimit+4 && !f.onStack(callee) {
+			return f.inlineCall(callee, args, binds, st, g, b)
+		}
 	}
 	if m, ok := externs[full]; ok {
 		e.funcsUsed[full] = "extern-model"
 		return m(f, b, in, args, st, g)
 	}
+	if strings.HasPrefix(full, "(*github.com/aws/aws-sdk-go/service/dynamodb.") && strings.HasSuffix(full, ").Validate") && len(args) == 1 {
+		// SDK v1 request validation: a function of the request object (no effect on module state)
+		e.note("assumed contract: SDK v1 input.Validate() is a function of the request (sdkValidate) without heap effects")
+		e.declRaw("sdkValidate", "(declare-fun sdkValidate (Int) Iface)\n(assert (forall ((r Int)) (! (iface_ok (sdkValidate r)) :pattern ((sdkValidate r)))))")
+		return Val{T: app("sdkValidate", args[0].T)}
+	}
+	if e.callPolicy == "lock" {
+		if gi, gs := f.guardedArg(callee, args); gi >= 0 {
+			return f.lockContractCall(b, in, callee, args, gi, gs, st, g, rs)
+		}
+		// objects reachable only through guarded fields (core tables and indexes) are used under the lock
+		top := f
+		for top.callerF != nil {
+			top = top.callerF
+		}
+		for i, p := range callee.Params {
+			if pt, ok := p.Type().Underlying().(*types.Pointer); ok && i < len(args) {
+				if n, ok := pt.Elem().(*types.Named); ok && n.Obj().Pkg() != nil && n.Obj().Pkg().Path() == modulePath+"/core" && (n.Obj().Name() == "Table" || n.Obj().Name() == "index") {
+					for k, lo := range top.lockObjs {
+						f.oblige("lock", f.oblName(fmt.Sprintf("%s:table-use@%s#%d.%d", funcDisplay(f.fn), funcDisplay(callee), f.callSite(callee), k+1)), g, not(eq(f.loadLV(st, lo), "0")),
+							"a core table reached through the client is used only while the client mutex is held", []string{"C11"}, posOf(in))
+					}
+					break
+				}
+			}
+		}
+		return f.resultVal(sanitize(callee.Name()), rs)
+	}
 	sp := f.specOf(callee)
+	if e.callPolicy == "shallow" && callee.Blocks != nil && inModule(callee) && !(sp != nil && sp.Inline) {
+		// opaque call: its may-write set is havoced, the result is unconstrained (sound over-approximation)
+		e.funcsUsed[funcFull(callee)] = "opaque (may-write set havoced)"
+		for _, h := range e.mayWriteNames(callee) {
+			st.heap[h] = e.freshConst(h, e.heapSort[h])
+		}
+		if _, all := mayWriteKeys(e.prog, callee)["*"]; all {
+			st.havocAll()
+		}
+		e.canonAfterHavoc(st, e.mayWriteNames(callee))
+		na := e.freshConst("alloc", "Int")
+		e.assume(app("<=", st.alloc, na))
+		st.alloc = na
+		return f.resultVal(sanitize(callee.Name()), rs)
+	}
 	if sp != nil && !sp.Inline && len(binds) == 0 {
 		e.funcsUsed[funcFull(callee)] = "contract"
 		return f.contractCall(b, in, callee, sp, args, st, g)
@@ -447,8 +492,10 @@ func (f *Frame) contractCall(b *ssa.BasicBlock, in *ssa.Call, callee *ssa.Functi
 	na := e.freshConst("alloc", "Int")
 	e.assume(app("<=", st.alloc, na))
 	st.alloc = na
-	for _, h := range writes {
-		e.assume(implies(g, f.frameFact(h, mods, before, st, before.alloc)))
+	if !sp.Partial {
+		for _, h := range writes {
+			e.assume(implies(g, f.frameFact(h, mods, before, st, before.alloc)))
+		}
 	}
 	e.canonAfterHavoc(st, writes)
 	rs := callee.Signature.Results()
@@ -513,6 +560,9 @@ func (f *Frame) invoke(b *ssa.BasicBlock, in *ssa.Call, c *ssa.CallCommon, recv 
 	mname := c.Method.Name()
 	if m, ok := invokeModels[typeKey(c.Value.Type())+"."+mname]; ok {
 		return m(f, b, in, recv, args, st, g)
+	}
+	if e.callPolicy == "lock" {
+		return f.resultVal("m_"+mname, rs)
 	}
 	// error.Error(), fmt.Stringer etc. on foreign interfaces
 	named, _ := c.Value.Type().(*types.Named)
@@ -670,7 +720,7 @@ func (f *Frame) builtinAppend(b *ssa.BasicBlock, in *ssa.Call, c *ssa.CallCommon
 	if t.KLen > 0 && !tIsString {
 		content = old
 		for j := 0; j < t.KLen-1; j++ {
-			elem := sel(sel(st.H(h), app("s_arr", t.T)), app("+", app("s_off", t.T), itoa(j)))
+			elem := sel(sel(st.H(h), app("s_arr", t.T)), app("sidx", app("s_off", t.T), itoa(j)))
 			content = sto(content, app("+", soff, slen, itoa(j)), elem)
 		}
 	} else {
@@ -838,4 +888,62 @@ func (f *Frame) pureTerms(callee *ssa.Function, args []Val, st *State) []pureTer
 		}
 	}
 	return out
+}
+
+// guardedArg: index of the first argument whose type is a pointer to a struct with a guarded declaration.
+func (f *Frame) guardedArg(callee *ssa.Function, args []Val) (int, *GuardSpec) {
+	for i, p := range callee.Params {
+		if gs := f.e.guardOf(p.Type()); gs != nil && i < len(args) {
+			return i, gs
+		}
+	}
+	return -1, nil
+}
+
+func (e *Enc) guardOf(t types.Type) *GuardSpec {
+	pt, ok := t.Underlying().(*types.Pointer)
+	if !ok {
+		return nil
+	}
+	n, ok := pt.Elem().(*types.Named)
+	if !ok || n.Obj().Pkg() == nil {
+		return nil
+	}
+	for _, g := range e.specs.guards {
+		if g.Pkg == n.Obj().Pkg().Path() && g.Struct == n.Obj().Name() {
+			return g
+		}
+	}
+	return nil
+}
+
+// mutexOf: lvalue of the guarding mutex field of object x (pointer to a guarded struct)
+func (f *Frame) mutexOf(x Val, ptrT types.Type, gs *GuardSpec) *LVal {
+	structT := ptrT.Underlying().(*types.Pointer).Elem()
+	st, _ := isStruct(structT)
+	for i := 0; i < st.NumFields(); i++ {
+		if st.Field(i).Name() == gs.Mutex {
+			return &LVal{Heap: f.e.fieldHeap(structT, i), Ref: x.T, BaseT: st.Field(i).Type(), T: st.Field(i).Type()}
+		}
+	}
+	fail("guarded struct %s has no field %s", gs.Struct, gs.Mutex)
+	return nil
+}
+
+// lockContractCall: lock-discipline contract of a function that receives a guarded object:
+// it must be called with the mutex not held (or held, when annotated lockheld) and returns with the same state.
+func (f *Frame) lockContractCall(b *ssa.BasicBlock, in *ssa.Call, callee *ssa.Function, args []Val, gi int, gs *GuardSpec, st *State, g string, rs *types.Tuple) Val {
+	e := f.e
+	held := f.mutexHeld(f.mutexOf(args[gi], callee.Params[gi].Type(), gs))
+	cur := f.loadLV(st, held)
+	sp := f.specOf(callee)
+	want := eq(cur, "0")
+	what := "called while the mutex is held (it locks itself: self-deadlock)"
+	if sp != nil && sp.LockHeld {
+		want = not(eq(cur, "0"))
+		what = "requires the mutex to be held by the caller"
+	}
+	f.oblige("lock", f.oblName(fmt.Sprintf("%s:lock@%s#%d", funcDisplay(f.fn), funcDisplay(callee), f.callSite(callee))), g, want, funcDisplay(callee)+" "+what, []string{"C11"}, posOf(in))
+	e.assume(implies(g, want))
+	return f.resultVal(sanitize(callee.Name()), rs)
 }
